@@ -47,6 +47,11 @@ fn at(id: u64) {
     TRACE.with(|c| c.set(c.get().wrapping_mul(10).wrapping_add(id)));
     tick();
 }
+/// a call expression that yields a function ("argument expression #2 was evaluated now")
+fn mk2<F>(f: F) -> F {
+    at(2);
+    f
+}
 // function-path forms
 fn fb() -> i64 {
     tick();
@@ -426,11 +431,46 @@ fn minmax_prim(a: i64, b: i64) -> Result<(), String> {
     Ok(())
 }
 
+/// A function-valued argument *expression* with an effect (`unwrap_or_else!(subject, mk2(fb))`): the method
+/// call evaluates it whichever variant the subject has and only skips the call.  Values and call counts must agree;
+/// when the only difference is that konst did not evaluate the expression on the variant that does not need the
+/// function, the case is handed to the listed finding (after every comparison of this function has been made).
+fn fn_expr_macros(vo: Option<i64>, vr: Result<i64, i64>, b: i64) -> Result<(), String> {
+    ARG.with(|a| a.set(b));
+    let mut skipped: Vec<&str> = Vec::new();
+    macro_rules! fn_expr {
+        ($name:literal, $needed:expr, $k:expr, $o:expr) => {{
+            calls();
+            trace();
+            let k = $k;
+            let (kc, kt) = (calls(), trace());
+            let o = $o;
+            let (oc, ot) = (calls(), trace());
+            ensure!(k == o, "{}: konst {:?} std {:?}", $name, k, o);
+            if (kc, kt) != (oc, ot) {
+                // std: subject (1), function expression (2) [+ the call]; alternative model: no 2 when not needed
+                ensure!(!$needed && ot == 12 && kt == 1 && kc + 1 == oc, "{}: konst evaluated its argument expressions in the order {} ({} ticks), the method call in the order {} ({} ticks)", $name, kt, kc, ot, oc);
+                skipped.push($name);
+            }
+        }};
+    }
+    fn_expr!("option::unwrap_or_else!(function expression)", vo.is_none(), option::unwrap_or_else!({ at(1); vo }, mk2(fb)), { at(1); vo }.unwrap_or_else(mk2(fb)));
+    fn_expr!("option::ok_or_else!(function expression)", vo.is_none(), option::ok_or_else!({ at(1); vo }, mk2(fb)), { at(1); vo }.ok_or_else(mk2(fb)));
+    fn_expr!("result::unwrap_or_else!(function expression)", vr.is_err(), result::unwrap_or_else!({ at(1); vr }, mk2(|e: i64| { tick(); e.wrapping_sub(1) })), { at(1); vr }.unwrap_or_else(mk2(|e: i64| { tick(); e.wrapping_sub(1) })));
+    fn_expr!("result::map!(function expression)", vr.is_ok(), result::map!({ at(1); vr }, mk2(mapper)), { at(1); vr }.map(mk2(mapper)));
+    if skipped.is_empty() {
+        Ok(())
+    } else {
+        Err(format!("FN_EXPR_SKIPPED {}: the function-valued argument expression was not evaluated (std evaluates it and only skips the call)", skipped.join(", ")))
+    }
+}
+
 fn run_case(c: &Case) -> Result<(), String> {
     match c.group {
         0 => {
             option_macros(if c.pos { Some(c.a) } else { None }, c.b)?;
-            option_macros_other_payloads(if c.pos { Some(c.a) } else { None }, c.b)
+            option_macros_other_payloads(if c.pos { Some(c.a) } else { None }, c.b)?;
+            fn_expr_macros(if c.pos { Some(c.a) } else { None }, if c.pos { Ok(c.a) } else { Err(c.a) }, c.b)
         }
         1 => result_macros(if c.pos { Ok(c.a) } else { Err(c.a) }, c.b),
         2 => try_macros(c.pos, c.a, c.b),
@@ -453,7 +493,16 @@ fn eval(ctx: &mut Ctx, c: Case) {
         if nt {
             ctx.nontrivial(["option", "result", "try", "minmax_keyed", "minmax_prim", "minmax_compound"][(c.group as usize).min(5)], &c, || json!(c));
         }
-        run_case(&c)
+        match run_case(&c) {
+            Err(m) if m.starts_with("FN_EXPR_SKIPPED") => {
+                if ctx.known_hit("function-argument-expression-skipped-when-unused", || json!({"case": c, "message": m})) {
+                    Ok(())
+                } else {
+                    Err(m)
+                }
+            }
+            r => r,
+        }
     });
 }
 
